@@ -182,8 +182,21 @@ def short_strings(tier):
                 yield bytes([a, b, c])
 
 
+# every row of the byte-size table of src/uint/array.rs (`impl_uint_array_encoding!`): the DER codec of a width goes through
+# `ByteArray<Uint>` = that row; one wrong row (seed C18-m6: U3584 -> typenum::U484) breaks exactly one width
+TABLE_WIDTHS = [1, 2, 3, 4, 6, 7, 8, 9, 12, 13, 14, 16, 24, 28, 32, 48, 56, 64, 96, 128]
+
+
 def gen(tier, rng):
     quick = tier == 'quick'
+    # ---- 0. table sweep: a few encodings and decodings at EVERY width that has the codec
+    for n in TABLE_WIDTHS:
+        nb = 8 * n
+        for v in [0, 1, 0x7f, 0x80, (1 << (8 * nb - 1)) - 1, 1 << (8 * nb - 1), (1 << (8 * nb)) - 1, value(rng, n), value(rng, n)]:
+            yield f"c18.der.to_der {n} {hx(v)}"
+            yield f"c18.der.len {n} {hx(v)}"
+            yield f"c18.der.from_der {n} {bx(der(v))}"
+        yield f"c18.der.from_der {n} {bx(der(1 << (8 * nb)))}"        # one octet too long
     # ---- 1. encoders on boundary values of every width
     for n in DER_WIDTHS:
         nb = 8 * n
